@@ -1771,3 +1771,257 @@ where
     }
     Ok(ClusterId(c))
 }
+
+// ====================== directory walkers over abstract blocks (stubbed) ===
+// find_directory_entry / delete_directory_entry walk a directory's blocks and
+// clusters and delegate each block to find_entry_in_block /
+// delete_entry_in_block.  The per-block functions are decided on fully
+// symbolic blocks (c06_find_root16, c03_delete_entry_root16); here they are
+// replaced by stubs that log which block they were asked about and answer from
+// a script, and next_cluster by the ghost FAT, so that the *walk* - which
+// blocks, in which order, when to stop, what to do with errors - is decided
+// for symbolic chains and scripts.
+static mut WALK_LOG: [u32; 8] = [0; 8];
+static mut WALK_N: usize = 0;
+/// script: answer for the i-th visited block: 0 = NotFound, 1 = found, 2 = device error
+static mut WALK_SCRIPT: [u8; 8] = [0; 8];
+
+fn stub_find_entry_in_block<D>(_this: &FatVolume, _bc: &mut BlockCache<D>, _fat_type: FatType, _name: &ShortFileName, block_idx: BlockIdx) -> Result<DirEntry, Error<D::Error>>
+where
+    D: BlockDevice,
+{
+    let i = unsafe {
+        let i = WALK_N;
+        assert!(i < 8, "walk: more blocks visited than modelled");
+        WALK_LOG[i] = block_idx.0;
+        WALK_N += 1;
+        i
+    };
+    match unsafe { WALK_SCRIPT[i] } {
+        0 => Err(Error::NotFound),
+        1 => Ok(DirEntry::new(ShortFileName { contents: *b"FOUND      " }, Attributes::create_from_fat(0x20), ClusterId(0), fixed_timestamp(), block_idx, 64)),
+        _ => Err(Error::BadBlockSize(0xDEAD)), // stands for "some other error" (a device error cannot be fabricated generically)
+    }
+}
+
+/// the blocks a directory occupies per the FAT specification: root16 = the fixed
+/// region; otherwise every block of every cluster of the chain, in order
+fn spec_dir_blocks16(fat: &[u32; 8], start: u32, bpc: u32, first_data: u32, lba: u32) -> ([u32; 8], usize) {
+    let mut out = [0u32; 8];
+    let mut n = 0;
+    let mut c = start;
+    let mut done = false;
+    let mut i = 0;
+    while i < 4 {
+        if !done && c >= 2 && c < 6 {
+            let mut b = 0;
+            while b < 2 {
+                if b < bpc && n < 8 {
+                    out[n] = lba + first_data + (c - 2) * bpc + b;
+                    n += 1;
+                }
+                b += 1;
+            }
+            let e = fat[c as usize];
+            if e >= 2 && e < 6 {
+                c = e;
+            } else {
+                done = true;
+            }
+        }
+        i += 1;
+    }
+    (out, n)
+}
+
+fn walker_volume(fat32: bool, bpc: u8) -> FatVolume {
+    let mut v = if fat32 { g32a() } else { g16a() };
+    v.blocks_per_cluster = bpc;
+    v
+}
+
+/// find_directory_entry over a sub-directory with a symbolic chain (1..3
+/// clusters, any order), 1 or 2 blocks per cluster, symbolic script: visits
+/// exactly the directory's blocks in order until the first block that does not
+/// answer NotFound, returns that block's answer (entry or error), NotFound
+/// after the last block.
+fn walk_find(fat32: bool) {
+    let mut fat0 = [0u32; 8];
+    let mut c = 2;
+    while c < 6 {
+        let e: u32 = kani::any();
+        kani::assume(e >= 0x0FFF_FFF8 && e <= G_EOC || (e >= 2 && e < 6));
+        fat0[c] = e;
+        c += 1;
+    }
+    let start: u32 = kani::any();
+    kani::assume(start >= 2 && start < 6);
+    let len = ghost_chain_len(&fat0, start);
+    kani::assume(len >= 1 && len <= 3);
+    let bpc: u8 = kani::any();
+    kani::assume(bpc == 1 || bpc == 2);
+    let script: [u8; 8] = kani::any();
+    unsafe {
+        GFAT = fat0;
+        WALK_N = 0;
+        WALK_SCRIPT = script;
+    }
+    let vol = walker_volume(fat32, bpc);
+    let blocks: [Block; G32A_N] = zero_blocks();
+    let mut cache = BlockCache::new(SymDisk::new(0, blocks));
+    let di = DirectoryInfo { raw_directory: crate::filesystem::RawDirectory(crate::filesystem::Handle(7)), raw_volume: crate::RawVolume(crate::filesystem::Handle(1)), cluster: ClusterId(start) };
+    let r = vol.find_directory_entry(&mut cache, &di, &ShortFileName { contents: *b"FOUND      " });
+    let (want, nwant) = spec_dir_blocks16(&fat0, start, bpc as u32, vol.first_data_block.0, vol.lba_start.0);
+    // first scripted answer other than NotFound among the directory's blocks
+    let mut stop = nwant;
+    let mut i = 8;
+    while i > 0 {
+        i -= 1;
+        if i < nwant && script[i] != 0 {
+            stop = i;
+        }
+    }
+    let visited = unsafe { WALK_N };
+    let log = unsafe { WALK_LOG };
+    let expect_visits = if stop < nwant { stop + 1 } else { nwant };
+    assert!(visited == expect_visits, "dir.walk: number of directory blocks examined != blocks up to the first hit / all blocks of the chain");
+    i = 0;
+    while i < 8 {
+        if i < visited {
+            assert!(log[i] == want[i], "dir.walk: lookup examined a block that is not the next block of the directory's chain");
+        }
+        i += 1;
+    }
+    if stop < nwant {
+        if script[stop] == 1 {
+            assert!(matches!(&r, Ok(e) if e.entry_block.0 == want[stop]), "dir.walk: the entry found in a later block of the chain was not returned");
+        } else {
+            assert!(matches!(r, Err(Error::BadBlockSize(0xDEAD))), "fault.reported: an error from a directory block was not returned by the lookup");
+        }
+    } else {
+        assert!(matches!(r, Err(Error::NotFound)), "dir.walk: NotFound expected after the whole chain was searched");
+    }
+    kani::cover!(len == 3 && bpc == 2 && stop == 5 && script[5] == 1);
+    kani::cover!(len == 2 && stop == nwant);
+    kani::cover!(stop == 1 && script[1] == 2);
+}
+#[kani::proof]
+#[kani::unwind(12)]
+#[kani::stub(crate::fat::volume::FatVolume::next_cluster, stub_next_cluster)]
+#[kani::stub(crate::fat::volume::FatVolume::find_entry_in_block, stub_find_entry_in_block)]
+fn c06_walk_find_fat16_any_chain() {
+    walk_find(false);
+}
+#[kani::proof]
+#[kani::unwind(12)]
+#[kani::stub(crate::fat::volume::FatVolume::next_cluster, stub_next_cluster)]
+#[kani::stub(crate::fat::volume::FatVolume::find_entry_in_block, stub_find_entry_in_block)]
+fn c06_walk_find_fat32_any_chain() {
+    walk_find(true);
+}
+
+// ======================================= long-name runs in a listing (C17) ===
+/// iterate_dir_lfn over a FAT16 root whose first 5 slots are fully symbolic
+/// (slot 5 ends the directory); LfnBuffer operations are stubbed.  For the k-th
+/// reported entry: a long name is reported iff the entry is directly preceded
+/// (deleted slots do not count) by a complete, descending fragment run - first
+/// fragment flagged 0x40 with sequence n in 1..=19, then n-1, ..., 1 - whose
+/// checksum equals the short name's checksum.
+fn lfn_csum(name: &[u8]) -> u8 {
+    let mut r = 0u8;
+    let mut i = 0;
+    while i < 11 {
+        r = r.rotate_right(1).wrapping_add(name[i]);
+        i += 1;
+    }
+    r
+}
+#[kani::proof]
+#[kani::unwind(162)]
+#[kani::stub(crate::filesystem::LfnBuffer::push, crate::filesystem::vk_fs::stub_lfn_push)]
+#[kani::stub(crate::filesystem::LfnBuffer::clear, crate::filesystem::vk_fs::stub_lfn_clear)]
+#[kani::stub(crate::filesystem::LfnBuffer::as_str, crate::filesystem::vk_fs::stub_lfn_as_str)]
+fn c17_dir_lfn_runs() {
+    const NS: usize = 5;
+    let mut blocks: [Block; G16A_N] = zero_blocks();
+    {
+        let raw: [u8; 32 * NS] = kani::any();
+        let r = &mut blocks[G16A_ROOT as usize].contents;
+        let mut i = 0;
+        while i < 32 * NS {
+            r[i] = raw[i];
+            i += 1;
+        }
+    }
+    let root = blocks[G16A_ROOT as usize].clone();
+    let vol = g16a();
+    let mut cache = BlockCache::new(SymDisk::new(0, blocks));
+    let mut storage = [0u8; 16];
+    let mut lfn = LfnBuffer::new(&mut storage);
+    let k: usize = kani::any();
+    kani::assume(k < NS);
+    let mut n = 0usize;
+    let mut kth: Option<(u32, bool)> = None;
+    let r = vol.iterate_dir_lfn(&mut cache, &mut lfn, &root16_dirinfo(), |de, name| {
+        if n == k {
+            kth = Some((de.entry_offset, name.is_some()));
+        }
+        n += 1;
+    });
+    assert!(r.is_ok(), "lfn.list: listing failed / crashed on arbitrary directory bytes");
+    // ---- specification-side run tracker over the same slots ----
+    // state: expecting == 0xFF -> no run; otherwise next sequence number expected (0 = complete)
+    let mut expecting: u8 = 0xFF;
+    let mut run_csum: u8 = 0;
+    let mut shorts = 0usize;
+    let mut want: Option<(u32, bool)> = None;
+    let mut ended = false;
+    let mut s = 0;
+    while s < NS {
+        let o = 32 * s;
+        let c = &root.contents;
+        if !ended {
+            if c[o] == 0x00 {
+                ended = true;
+            } else if c[o] != 0xE5 {
+                if c[o + 11] & 0x0F == 0x0F {
+                    let start = c[o] & 0x40 != 0;
+                    let seq = c[o] & 0x1F;
+                    if start && seq >= 1 && seq < 0x14 {
+                        expecting = seq - 1;
+                        run_csum = c[o + 13];
+                    } else if !start && expecting != 0xFF && expecting >= 1 && seq == expecting {
+                        expecting = seq - 1;
+                    } else {
+                        expecting = 0xFF;
+                    }
+                } else {
+                    let named = expecting == 0 && run_csum == lfn_csum(&c[o..o + 11]);
+                    if shorts == k {
+                        want = Some((o as u32, named));
+                    }
+                    shorts += 1;
+                    expecting = 0xFF; // a run belongs to the short entry that directly follows it
+                }
+            }
+        }
+        s += 1;
+    }
+    assert!(n == shorts, "lfn.list: number of entries reported != short entries before the end marker");
+    match (kth, want) {
+        (Some((off, some)), Some((woff, wsome))) => {
+            assert!(off == woff, "lfn.list: order of reported entries");
+            if some && !wsome {
+                assert!(false, "lfn.run: long name reported without a complete, ordered, checksum-matching run directly before the entry");
+            }
+            if !some && wsome {
+                assert!(false, "lfn.run: complete matching run but no long name reported");
+            }
+        }
+        (None, None) => {}
+        _ => assert!(false, "lfn.list: count mismatch"),
+    }
+    kani::cover!(matches!(want, Some((_, true))) && k == 0);
+    kani::cover!(matches!(want, Some((128, true))), "3-fragment run + short entry in slot 4... or 2+...");
+    kani::cover!(shorts == 2 && matches!(want, Some((_, false))) && k == 1);
+}
